@@ -187,14 +187,12 @@ def putObstacle (s : St) (r : Role) (k : Nat) : St :=
   | .phan => { s with phan := dictSet s.phan k }
 
 /-- `add_objects(LaneletNetwork)`: all ids of the new network must be unused (checked before anything
-    changes); the ids of the network that is replaced are released; the new ids are marked. -/
+    changes, the ids of the current network count as used); then the ids of the network that is replaced
+    are released (`self._id_set.difference_update(replaced_object_ids)`). -/
 def addNetwork (s : St) (n : Net) : St × Out :=
-  if (netIds n).Nodup ∧ ∀ k ∈ netIds n, k ∉ s.idSet then
-    let s1 : St := { s with idSet := s.idSet.filter (fun k => k ∉ netIds s.net) }
-    match markMany s1 (netIds n) with
-    | (s2, none) => ({ s2 with net := n }, .ok)
-    | (s2, some e) => (s2, .err e)
-  else (s, .err .value)
+  match markMany s (netIds n) with
+  | (s1, none) => ({ s1 with idSet := s1.idSet.filter (fun k => k ∉ netIds s.net), net := n }, .ok)
+  | (s1, some e) => (s1, .err e)
 
 /-- `add_objects` for one object (scenario.py:721-790). -/
 def addObj (s : St) (o : Obj) (refs : List Nat) : St × Out :=
